@@ -11,6 +11,37 @@ def _run(cmd, timeout=1800, env=None):
     return p.returncode, p.stdout
 
 
+def make_cmd_runner(name, cmd, prefix, oracle, reps_thorough=5, timing=True, select=None):
+    """runner for a harness sub-command that prints one line per scenario ending in ' ok' or a violation marker."""
+    def run(ctx):
+        reps = 1 if ctx["tier"] == "quick" else reps_thorough
+        lines, bad = [], []
+        for _ in range(reps):
+            rc, out = _run([os.path.join(ctx["build"], "harness")] + cmd, timeout=900)
+            for l in out.splitlines():
+                if l.startswith(prefix) and (select is None or select in l):
+                    lines.append(l)
+                    if not l.endswith(" ok"):
+                        bad.append(l)
+        if bad and timing:
+            again = 0
+            for _ in range(3):
+                rc, out = _run([os.path.join(ctx["build"], "harness")] + cmd, timeout=900)
+                if any(l.startswith(prefix) and (select is None or select in l) and not l.endswith(" ok") for l in out.splitlines()):
+                    again += 1
+            if again < 3:
+                bad = []
+        res = {"name": name, "ok": not bad and bool(lines), "evaluations": len(lines), "nontrivial": len(lines), "traces": len(lines),
+               "samples": lines[:2], "violations": []}
+        if not lines:
+            res["broken"] = [{"kind": "RUN", "name": name, "detail": "the scenario command produced no result lines"}]
+        if bad:
+            res["violations"].append({"kind": "counterexample", "obligation": name, "case": bad, "oracle": oracle,
+                                      "replay_shell": "{harness} " + " ".join(cmd)})
+        return res
+    return run
+
+
 def runner_blocking(ctx):
     """C05: real-time lower bound of the blocking acquire paths (three API entry points + the policy executor)."""
     reps = 1 if ctx["tier"] == "quick" else 5
@@ -38,6 +69,12 @@ def runner_blocking(ctx):
                                   "oracle": "a blocking acquire returned before the instant at which its permit becomes usable",
                                   "replay_shell": "{harness} blocking"})
     return res
+
+runner_retrytiming_notbefore = make_cmd_runner("TIMING retry-not-before-delay", ["retrytiming"], "retrytiming ", select="notbefore/",
+    oracle="an attempt started before the delay announced by OnRetryScheduled had elapsed, or a negative delay was scheduled")
+runner_retrytiming_maxduration = make_cmd_runner("TIMING retry-max-duration", ["retrytiming"], "retrytiming ", select="maxduration/",
+    oracle="an attempt was started after a failure that was handled when the max duration had already elapsed, or the execution did not end with ExceededError")
+
 
 PROPS["C05"] = {
     "props": "Failsafe.Props.C05",
@@ -207,7 +244,7 @@ PROPS["C02"] = {
     "required_theorems": ["Failsafe.Props.C02.retry_budget", "Failsafe.Props.C02.budget_fresh", "Failsafe.Props.C02.retry_stops_on_success",
                           "Failsafe.Props.C02.retry_final_result", "Failsafe.Props.C02.retry_abort_stops", "Failsafe.Props.C02.retry_exhausted_passthrough",
                           "Failsafe.Props.C02.retryOnFailure_failed", "Failsafe.Props.C02.retryOnFailure_exceeded", "Failsafe.Props.C02.retryOnFailure_not_done"],
-    "diff": [COMPOSE_DIFF], "rule": COMPOSE_RULE, "assumptions": COMPOSE_ASSUME,
+    "diff": [COMPOSE_DIFF], "rule": COMPOSE_RULE, "assumptions": COMPOSE_ASSUME, "runners": [runner_retrytiming_maxduration],
     "modelled": COMPOSE_MODELLED + ["max duration (elapsed-time exhaustion) is not part of the sequential model; its decision expression is pinned by the body fact of OnFailure and the clamp by C13",
                                     "concurrent executions sharing one policy: the executor state is per execution by construction (ToExecutor body fact); schedules are sampled by the C14 stress run"],
     "manifest": {
@@ -231,4 +268,28 @@ PROPS["C16"] = {
         "text": "Lean 4 theorems over the event log of the composition model: every execution ends with exactly one verdict event matching SuccessAll of the returned result followed by exactly one OnDone; per handled failure the retry policy emits OnFailure, OnAbort iff abort-matching, OnRetriesExceeded iff exhausted and not an abort, never both; OnRetryScheduled and OnRetry counts grow together for any inner layer (induction over the loop); OnFull / OnRateLimitExceeded fire exactly on rejection; cache/fallback/timeout events per C11/C10; breaker state-change events form a connected path (C03). Tie: FACTS (guarded effect order of every executor), DIFF recording every listener the builders expose into one ordered log with sampled statistics.",
         "note": "Trusted: Lean kernel; fact extractor; harness.",
         "technique": "Lean 4 proof (event-log invariants, induction over the retry loop) + structural facts + differential correspondence"},
+}
+
+PROPS["C13"] = {
+    "props": "Failsafe.Props.C13", "ties": ["Failsafe.Tie.Delay"],
+    "kernels": ["adjust_max_duration", "adjust_jitter", "get_delay", "fixed_or_random", "random_delay", "random_delay_factor", "random_delay_in_range"],
+    "facts": ["selects/retry.Apply", "bodies/retryexecutor:executor.Apply"],
+    "required_theorems": ["Failsafe.Props.C13.delay_nonneg", "Failsafe.Props.C13.clamped_by_max_duration", "Failsafe.Props.C13.backoff_le_maxDelay",
+                          "Failsafe.Props.C13.backoff_sequence", "Failsafe.Props.C13.backoff_monotone", "Failsafe.Props.C13.fixed_exact",
+                          "Failsafe.Props.C13.random_in_range", "Failsafe.Props.C13.delayFn_used", "Failsafe.Props.C13.jitter_within",
+                          "Failsafe.Props.C13.jitter_not_accumulated", "Failsafe.Props.C13.lastSeq_independent_of_jitter", "Failsafe.Props.C13.attempt_not_before_delay",
+                          "Failsafe.Tie.Delay.tie_getDelay", "Failsafe.Tie.Delay.tie_fixedOrRandom", "Failsafe.Tie.Delay.tie_adjustForMaxDuration", "Failsafe.Tie.Delay.tie_adjustForJitter"],
+    "diff": [{"slice": "retrydelay", "n_quick": 1500, "n_thorough": 20000, "seeds_thorough": 4, "n_search": 20000}],
+    "runners": [runner_retrytiming_notbefore],
+    "rule": "retrydelay slice through the VerifDelaySequence hook (real executor, real getDelay, no waiting): fixed / backoff (factors 1, 1.001, 1.1, 1.5, 2, 7/3, 5) / "
+            "random range / delay function (returning -1, 0, values) x none / absolute jitter / jitter factor x with and without max duration, magnitudes 1 ns ... 7 h "
+            "incl. 2^24+1 ns, 1-24 consecutive failures, elapsed time stepping past the max duration; deterministic sequences must equal the model (native Float32) exactly, "
+            "sequences with draws must lie in the envelope around the model's un-jittered value; non-trivial = more than one delay in the sequence",
+    "assumptions": ["IEEE-754: Lean native Float32/Float = Go float32/float64 (validated by exact equality of every deterministic backoff sequence)",
+                    "math/rand draws lie in [0,1)", "Go timers never fire early"],
+    "modelled": ["the wait itself (timer/select) is a timed transition; real time is sampled by the retrytiming runner (lower bound only)"],
+    "manifest": {
+        "text": "Lean 4 theorems over the retry delay model: every delay is non-negative and never extends past the remaining max duration (exact); the backoff state is min(scale(last), maxDelay) <= maxDelay and the k-th backoff delay is the k-fold iterate (backoff_sequence); non-decreasing given the stated IEEE fact; fixed delay exact; random delay is the draw in [min,max]; the delay function's value is used when it returns one; absolute jitter shifts by at most the jitter; the backoff state never depends on the jitter draws (jitter does not accumulate), for every sequence; the next attempt is not before the delay in the timed model. Tie: GEN for getDelay, getFixedOrRandomDelay, adjustForJitter, adjustForMaxDuration and the three util.Random* kernels (Generated = Model proved each run), DIFF of the real executor's delay sequences through the hook, real-time lower-bound scenarios.",
+        "note": "Trusted: Lean kernel; translator; hook (calls the real getDelay with a stub attempt); native floats = Go floats; math/rand in [0,1); timers never early. Float facts needed by monotonicity/jitter-factor envelopes are hypotheses checked differentially.",
+        "technique": "Lean 4 proof (exact integer envelope theorems, sequence induction) + regenerated-kernel tie + differential correspondence via hook + timing scenarios"},
 }
